@@ -168,6 +168,10 @@ def run(cx):
     cx.floor("R05.zero-seeded unchecked_insert call sites", len(seeders), 1)
     for t in seeders:
         inside = t.fn.root == sh.id and t.fn.id != sh.id
+        if not inside and t.fn.j.get("vis") != "pub" and not t.fn.root:
+            # a private helper that builds the initial set: every call of it is made inside the initializer closure
+            sites = [c for c in fb.calls_to(re.escape(t.fn.id) + "$")]
+            inside = bool(sites) and all(c.fn.root == sh.id and c.fn.id != sh.id for c in sites)
         cx.ob("R05.zero-seeded-before-publish", t.fn.id + "|seeded-inside-initializer",
               inside and len(goi) == 1 and not other_pub,
               "the distinguished zero element is inserted outside the OnceCell initializer (after the shard set is "
